@@ -10,7 +10,7 @@ push, append); a loop outside those idioms leaves a summarised value and the cla
 
 Where the contract leaves a choice open the reference is a refinement test instead of an equality (REFINE below).
 Outside the reach of this analysis (declared, not claimed): connected_components (union-find with path compression)
-and sparse_bincount (HashMap)."""
+; `sparse_bincount` is analysed through the counting-map model of mapmodel.py."""
 import prims
 import stdlib
 from poly import Poly, as_poly, show_poly
@@ -18,8 +18,7 @@ from values import *
 
 VEC_FILE = "src/array/vec/vec_array.rs"
 CONTRACT_TRAITS = ("array::traits::Array", "array::traits::OrdArray", "array::traits::NaturalArray")
-OUT_OF_REACH = {"connected_components": "union-find with path compression (pointer-chasing loops): not summarised",
-                "sparse_bincount": "HashMap-based counting: no model of hash maps"}
+OUT_OF_REACH = {"connected_components": "union-find with path compression (pointer-chasing loops): not summarised"}
 TRIVIAL = {"empty", "len", "from_slice"}
 OPERATORS = {"add", "sub"}
 
